@@ -40,18 +40,24 @@ func RenameBlankIdentifierWith(sig *types.Signature, prefix string) *types.Signa
 
 func hasBlankIdentifier(tup *types.Tuple) bool {
 	for i := 0; i < tup.Len(); i++ {
-		if tup.At(i).Name() == blackIdentifier {
+		if isBlank(tup.At(i).Name()) {
 			return true
 		}
 	}
 	return false
 }
 
+// isBlank returns whether a parameter name cannot be used to pass the parameter on:
+// it is blank, missing or it shadows f, the name of the function in the generated code.
+func isBlank(name string) bool {
+	return name == blackIdentifier || name == "" || name == "f"
+}
+
 func rename(tup *types.Tuple, prefix string) *types.Tuple {
 	vars := make([]*types.Var, tup.Len())
 	for i := range vars {
 		varValue := tup.At(i)
-		if varValue.Name() == blackIdentifier || strings.HasPrefix(varValue.Name(), prefix) {
+		if isBlank(varValue.Name()) || strings.HasPrefix(varValue.Name(), prefix) {
 			varValue = types.NewVar(varValue.Pos(), varValue.Pkg(), prefix+strconv.Itoa(i), varValue.Type())
 		}
 		vars[i] = varValue
